@@ -92,7 +92,7 @@ CHECKS = {
     ),
     "C17": dict(
         technique="property-based testing on tablebase positions with generated repetition histories; expectation solved exhaustively in the game where recorded positions are draws",
-        text="Generated-input search: tablebase mates in 3/5 plies with >= 2 preserving first moves, a generated subset of the preserving successors recorded in the history (or all successors, or the root too), depth n..n+2, seeds, 1-32 scheduled workers: a mate still forced with recorded positions as draws must be reported, never through a recorded successor; all successors recorded => evaluation exactly 0.",
+        text="Generated-input search: tablebase mates in 3/5 plies with >= 2 preserving first moves, a generated subset of the preserving successors recorded in the history (or all successors, or the root too), depth n..n+2, seeds, 1-32 scheduled workers: a mate still forced with recorded positions as draws must be reported, never through a recorded successor; all successors recorded => evaluation exactly 0. Second part: generated positions with a constructed double pawn push that nobody can capture en passant, searched with or without the en-passant target, must afterwards be recorded as seen under the other spelling too.",
         note="expectation computed by an AND/OR solve over the 3-man graph with recorded positions as terminal draws; schedules sampled",
         ref="DESIGN.md 6 C17",
     ),
